@@ -37,7 +37,7 @@ func TestMain(m *testing.M) {
 		panic(err)
 	}
 	tmpDir = d
-	defer os.RemoveAll(d)
+	h.AtExit(func() { os.RemoveAll(d) })
 	h.Main(m, "C16", replay)
 }
 
